@@ -22,12 +22,15 @@ def make_jobs(ctl):
         def calc(self, obj, ver):
             # the job argument (the version) reaches the program on the command line for some items and ONLY through an
             # input file for the others: a changed argument is a different input either way
-            via_file = str(obj)[-1] in "24680"
-            cmd = "sh -c '" + SCRIPT.format(ctl=ctl, name=obj, getver="v=$(cat ver.txt)" if via_file else f"v={ver}") + "'"
+            # ... and ONLY through the job's environment for a third group (seeded change C18-k: envars left out of the hash)
+            last = str(obj)[-1]
+            via_env, via_file = last in "03", last in "2468"
+            getver = "v=$MBV_VER" if via_env else "v=$(cat ver.txt)" if via_file else f"v={ver}"
+            cmd = "sh -c '" + SCRIPT.format(ctl=ctl, name=obj, getver=getver) + "'"
             # a second command that always succeeds: a failure of the first one must stop the job
             return JobInput(jid=str(obj), commands=[(cmd, "main"), ("sh -c 'exit 0'", None)],
                             files={"note.txt": b"x", "ver.txt": str(ver) if via_file else "-"},
-                            return_files=self.return_files)
+                            return_files=self.return_files, envars={"MBV_VER": str(ver)} if via_env else None)
 
         @calc.post
         def calc(self, out, obj, ver):
